@@ -3,6 +3,7 @@
    No proofs here. *)
 From Coq Require Import String List NArith ZArith Bool.
 From Parsley Require Import Obs Base.
+From Parsley Require Literals.        (* NOT imported: Reader.v/Literals.v reuse the names wsmode, is_ws, VInt, ... *)
 Import ListNotations.
 Open Scope N_scope.
 
@@ -46,7 +47,10 @@ Inductive interp := INone | ISelect (i : N) | IArray | IObject | INil | IUser (i
 
 (* ---- values carried by terminal nodes ---- *)
 Inductive lval :=
-| VRune (c : N) | VInt (z : Z) | VFloat (bits : N) | VStr (s : list N) | VBool (b : bool) | VNil | VDur (z : Z).
+| VRune (c : N)            (* the value of a [TRune] terminal's node: the byte it consumed *)
+| VInt (z : Z) | VFloat (bits : N) | VStr (s : list N) | VBool (b : bool) | VNil | VDur (z : Z)
+| VChar (c : N).           (* a rune value produced by a literal parser (terminal.Char, terminal.Rune): the node may
+                              span several bytes (an escape, a multi-byte encoding), unlike a [VRune] leaf *)
 
 (* ---- nodes (values; RightTrim returns moved copies, see DESIGN.md 4.1) ---- *)
 Inductive node :=
@@ -89,8 +93,29 @@ Definition append_node (n1 n2 : list node) : list node :=
 (* ---- the combinators ---- *)
 Inductive seqkind := SeqOf | SeqTry | SeqFirstOrAll | SMany (allowEmpty : bool) | SSepBy (allowEmpty : bool).
 
+(* the built-in literal parsers of text/terminal (model: Literals.v, property C08), re-exported
+   under their short names (Literals is required, not imported) *)
+Notation literal := Literals.literal.
+Notation LInteger := Literals.LInteger.
+Notation LFloat := Literals.LFloat.
+Notation LString := Literals.LString.
+Notation LChar := Literals.LChar.
+Notation LBool := Literals.LBool.
+Notation LNil := Literals.LNil.
+Notation LWord := Literals.LWord.
+Notation LOp := Literals.LOp.
+Notation LRune := Literals.LRune.
+Notation LDuration := Literals.LDuration.
+Notation LRegexp := Literals.LRegexp.
+Notation lit_domain := Literals.lit_domain.
+
 Inductive terminal :=
-| TRune (c : N).                    (* terminal.Rune of an ASCII rune; further literals: see Literals.v *)
+| TRune (c : N)                     (* terminal.Rune of an ASCII rune, modelled directly on the bytes *)
+| TLit (l : literal).               (* terminal.Integer / Float / String / Char / Bool / Nil / Word / Op / Rune /
+                                       TimeDuration / Regexp: Literals.lit_parse *)
+(* the construction parameters are inside the documented domain (outside it Go panics by design) *)
+Definition term_ok (t : terminal) : bool := match t with TRune _ => true | TLit l => lit_domain l end.
+Definition is_rune_term (t : terminal) : bool := match t with TRune _ => true | TLit _ => false end.
 
 Inductive pexpr :=
 | PTerm (t : terminal)
@@ -178,8 +203,16 @@ Definition cache_get (c : ctx) (idx pos : N) (lrc : intmap) : option result :=
 Definition cache_save (c : ctx) (idx pos : N) (r : result) : ctx :=
   {| cache := ((idx, pos), r) :: cache c; cerr := cerr c; calls := calls c; g_bodies := g_bodies c; g_fails := g_fails c |}.
 
-(* ---- the input: normalised bytes of one file and its base offset ---- *)
-Record input := { i_data : list N; i_offset : N }.
+(* ---- the input: normalised bytes of one file and its base offset; and the two external value
+   conversions the literal parsers Float and TimeDuration call, which the properties treat as
+   oracles: [i_cf] = strconv.ParseFloat(lexeme, 64) as math.Float64bits (None = err != nil),
+   [i_cd] = time.ParseDuration(lexeme) in nanoseconds (None = err != nil).  They belong to the
+   input only so that [term_parse] stays a pure function of (input, terminal, position). ---- *)
+Record input := { i_data : list N; i_offset : N; i_cf : list N -> option N; i_cd : list N -> option Z }.
+(* an input whose converters always succeed with a dummy value (engine-level observations render
+   Float/Duration values by their lexeme, never by value) *)
+Definition mk_input (data : list N) (offset : N) : input :=
+  {| i_data := data; i_offset := offset; i_cf := fun _ => Some 0; i_cd := fun _ => Some 0%Z |}.
 Definition i_len (i : input) : N := len_N (i_data i).
 Definition remaining (i : input) (pos : N) : N := i_len i - (pos - i_offset i).      (* Reader.Remaining *)
 Definition is_eof (i : input) (pos : N) : bool := i_len i <=? pos - i_offset i.        (* Reader.IsEOF *)
